@@ -64,12 +64,36 @@ fn decode_value(b: &[u8], payloads: &Mutex<std::collections::HashMap<u64, usize>
 async fn client(c: u64, st: Arc<Storage<ArrayKey<N>>>, log: Arc<Log>, ops: u64, keys: u64, seed: u64,
                 next_op: Arc<AtomicU64>, payloads: Arc<Mutex<std::collections::HashMap<u64, usize>>>, done: Arc<AtomicU64>) {
     let mut rng = StdRng::seed_from_u64(seed);
+    let restore_mode = RESTORE_MODE.load(Ordering::SeqCst) > 0;
+    if restore_mode && c == 1 {
+        // the administrator of the restore mode: fills the keys once, then closes the active blob, waits for its
+        // index dump and restores it, over and over, while every other client only reads
+        for k in 1..=keys {
+            let opid = next_op.fetch_add(1, Ordering::SeqCst) + 1;
+            let len = 8 + (opid % 23) as usize;
+            payloads.lock().unwrap().insert(opid, len);
+            log.push(json!({"ev": "inv", "c": c, "op": "write", "k": k, "ts": 3, "opid": opid}));
+            let r = tagged(opid, st.write(&model_key::<N>(k), Bytes::from(payload(opid, len)), BlobRecordTimestamp::new(3))).await;
+            log.push(json!({"ev": "resp", "c": c, "opid": opid, "rt": if r.is_ok() { "ok" } else { "err" }, "rn": 0}));
+        }
+        for _ in 0..ops {
+            let opid = next_op.fetch_add(1, Ordering::SeqCst) + 1;
+            log.push(json!({"ev": "adm", "c": c, "op": 10, "opid": opid}));
+            let a = st.try_close_active_blob().await.is_ok();
+            let _ = wait_quiescent(true, Duration::from_secs(10)).await;
+            let b = st.try_restore_active_blob().await.is_ok();
+            log.push(json!({"ev": "admdone", "c": c, "opid": opid, "ok": a && b}));
+            tokio::task::yield_now().await;
+        }
+        done.fetch_add(1, Ordering::SeqCst);
+        return;
+    }
     for _ in 0..ops {
         let opid = next_op.fetch_add(1, Ordering::SeqCst) + 1;
         let k = rng.gen_range(1..=keys);
         let ts = rng.gen_range(1..=6u64);
         let key = model_key::<N>(k);
-        let dice = rng.gen_range(0..100);
+        let dice = if restore_mode { rng.gen_range(65..100) } else { rng.gen_range(0..100) };   // restore mode: queries only
         // lifecycle calls race with the data operations (--lifecycle P: P in 1000 operations): the active
         // blob is closed under the writers' feet, restored or created explicitly; data operations must not
         // care (a write creates the active blob it needs).  Logged as `adm` events, which carry no data.
@@ -124,9 +148,11 @@ async fn finals(st: &Storage<ArrayKey<N>>, log: &Log, keys: u64, payloads: &Mute
 }
 
 static LIFECYCLE: AtomicU64 = AtomicU64::new(0);
+static RESTORE_MODE: AtomicU64 = AtomicU64::new(0);
 
 fn main() {
     LIFECYCLE.store(arg("--lifecycle").and_then(|s| s.parse().ok()).unwrap_or(0), Ordering::SeqCst);
+    RESTORE_MODE.store(if std::env::args().any(|a| a == "--restore-mode") { 1 } else { 0 }, Ordering::SeqCst);
     let cfg: HCfg = serde_json::from_str(&arg("--cfg").unwrap_or("{}".into())).expect("cfg");
     let clients: u64 = arg("--clients").and_then(|s| s.parse().ok()).unwrap_or(8);
     let ops: u64 = arg("--ops").and_then(|s| s.parse().ok()).unwrap_or(50);
@@ -150,6 +176,10 @@ fn main() {
     log.push(json!({"ev": "reset"}));
     let mut total_ops = 0u64;
     for session in 0..sessions {
+        if session > 0 {
+            // a new storage object on the same directory: blobs are ordered by their ids again
+            log.push(json!({"ev": "reopen"}));
+        }
         let (cfg2, dir2, log2, pl2, no2) = (cfg.clone(), dir.clone(), log.clone(), payloads.clone(), next_op.clone());
         let rec_q = rec.clone();
         let res: Result<(), String> = rt.block_on(async move {
@@ -204,6 +234,12 @@ fn main() {
         for e in all_events.iter() { let _ = writeln!(w, "{}", e); }
     }
     for e in all_events {
+        // the order in which blobs become the active one is the storage's blob order within a session (it is the
+        // order of their ids except when the worker installs a blob it created before a client created a newer one)
+        if matches!(e["ev"].as_str(), Some("active_set") | Some("active_replaced") | Some("active_restored") | Some("active_init")) && e["id"].as_i64().unwrap_or(-1) >= 0 {
+            let seq = e["seq"].as_u64().unwrap_or(0);
+            lines.push((seq, json!({"ev": "activate", "seq": seq, "b": e["id"]})));
+        }
         if e["ev"] == "append" {
             commits += 1;
             let seq = e["seq"].as_u64().unwrap_or(0);
